@@ -68,11 +68,14 @@ def Item.ok : Item → Bool
   | .str body => strBodyOK body
   | .ch c => !(isWsByte c || c == 8 || c == 34)
 
-/-- no `ch '/'` directly followed by `ch '*'` (that byte pair is a comment opener, not two items) -/
-def noSlashStar : List Item → Bool
-  | [] => true
-  | .ch 47 :: .ch 42 :: _ => false
-  | _ :: r => noSlashStar r
+/-- no `ch '/'` directly followed by `ch '*'` (that byte pair is a comment opener, not two items);
+    `afterSlash` = the previous item was `ch '/'` -/
+def nssGo : Bool → List Item → Bool
+  | _, [] => true
+  | afterSlash, .ch y :: r => !(afterSlash && y == 42) && nssGo (y == 47) r
+  | _, _ :: r => nssGo false r
+
+def noSlashStar (its : List Item) : Bool := nssGo false its
 
 /-- `its` is a legal item sequence -/
 def itemsOK (its : List Item) : Bool := its.all Item.ok && noSlashStar its
